@@ -12,9 +12,9 @@ impl Property for C01 {
     }
     fn plan(&self, tier: Tier) -> Vec<Segment> {
         vec![
-            Segment::random("small", tier.pick(25_000, 300_000), &[0], 8, 300),
-            Segment::random("medium", tier.pick(12_000, 200_000), &[1], 8, 300),
-            Segment::random("large", tier.pick(600, 20_000), &[2], 8, 300),
+            Segment::random("small", tier.pick(150_000, 1_500_000), &[0], 8, 300),
+            Segment::random("medium", tier.pick(60_000, 600_000), &[1], 8, 300),
+            Segment::random("large", tier.pick(5_000, 60_000), &[2], 8, 300),
         ]
     }
     fn rule(&self) -> &'static str {
